@@ -681,6 +681,8 @@ def main(ctx: Ctx) -> int:
             except Exception:   # noqa  (reported by the main loop below)
                 pass
         cov.update(lifecycle.run(ctx, rng, lnets, pid))
+    # second pass: the first networks once more at the end of the run (same process, same loader objects)
+    descs += [dict(d_) for ci_, d_ in enumerate(descs[:6]) if ci_ not in prebuilt]
     traces, meta = [], {}
     rt_cases: list = []
     tid = 0
